@@ -775,7 +775,8 @@ def VerifyScript(scriptSig, scriptPubKey, txTo, inIdx, flags=()):
             raise VerifyScriptError("P2SH inner scriptPubKey returned false")
 
     if SCRIPT_VERIFY_CLEANSTACK in flags:
-        assert SCRIPT_VERIFY_P2SH in flags
+        if SCRIPT_VERIFY_P2SH not in flags:
+            raise VerifyScriptError("SCRIPT_VERIFY_CLEANSTACK requires SCRIPT_VERIFY_P2SH")
 
         if len(stack) != 1:
             raise VerifyScriptError("scriptPubKey left extra items on stack")
